@@ -554,6 +554,16 @@ class CliRules:
             ok = is_int(code) and compare('!=', code, C(0), s.sym) is True
             rec.ob('R17.d', 'R17.d@%s::exit-call-nonzero' % fkey(f), ok, where, 'exit(%s) on a rejected settings value' % show(code))
         rec.count('R17.d main exits', n, 5)
+        # ---- R01.i the encrypting and the decrypting runner use the same stream count: the header length 48+20T is not stored in
+        #      the file, so the reader finds the body only if it assumes the writer's T
+        te = sorted({str(t) for n2, t, _ in runs if n2 == 'execute_encrypt'})
+        td = sorted({str(t) for n2, t, _ in runs if n2 == 'execute_decrypt'})
+        if te and td:
+            okt = te == td and len(te) == 1 and te[0].lstrip('-').isdigit()
+            rec.ob('R01.i', 'R01.i@%s::same-stream-count-for-encrypt-and-decrypt' % fkey(f), okt, where,
+                   'stream count of the runner: encrypt %s, decrypt %s (must be one and the same constant: the body offset 48+20T is not recorded in the file)' % (te, td))
+        else:
+            rec.ob('R01.i', 'R01.i@%s::same-stream-count-for-encrypt-and-decrypt' % fkey(f), None, where, 'encrypt/decrypt calls not found in main')
         # ---- R12.f the verifying and the decrypting runner are configured alike (same stream count)
         tv = {nm: sorted({str(t) for n2, t, _ in runs if n2 == nm}) for nm in ('execute_verify', 'execute_decrypt')}
         if not tv['execute_verify'] or not tv['execute_decrypt']:
